@@ -335,7 +335,7 @@ var kC09Print = run.NewKind("c09.print-roundtrip", func(c *run.Ctx, t c09Src) *r
 	return nil
 })
 
-var c09Fillers = []string{" ", "  ", "\t", "\n", "\r\n", "\r", " \n ", "# c\n", "#\n", " # comment with words\n", "# a \\\n continued\n", "#x\r\n", "# y\r", "# \\\\\n", "\n\n", "# {[(\"'\n", "#|, .a\n", "# \\\r\n more\n"}
+var c09Fillers = []string{" ", "  ", "\t", "\n", "\r\n", "\r", " \n ", "# c\n", "#\n", " # comment with words\n", "# a \\\n continued\n", "#x\r\n", "# y\r", "# \\\\\n", "\n\n", "# {[(\"'\n", "#|, .a\n", "# \\\r\n more\n", "# nul \x00 inside\n", "#\x00\n", "# \x00 \\\n \x00 continued\n", "# é日\xff bytes\n", "#\x7f\x01\n"}
 
 func respace(r *rand.Rand, src string, pts []int) string {
 	sort.Ints(pts)
@@ -395,6 +395,7 @@ var c09Surface = []string{
 	`module {name: "x", v: 1.5}; def f: 1;`, `1e3, .5, 1.5e-3, 0.0, 1E+2, 100000000000000000000, 1.000`, `if . then 1 elif .a then 2 elif .b then 3 else 4 end`, `if . then 1 end`, `try error catch .`, `try error`, `try (try error catch error) catch .`, `label $out | foreach .[] as $x (0; . + 1; if . > 2 then ., break $out else . end)`,
 	`[.[] | select(. > 1)] | map(. * 2) | add // 0`, `.a = 1 | .b |= 2 | .c += 3 | .d //= 4`, `[1, 2][0]`, `{a: 1}.a`, `"abc"[1:]`, `(1, 2)[0]?`, `[][0]`, `{}."a"`, `$x[0]`, `$x.a`, `f[0]`, `f(1)[0].a`, `if . then 1 else 2 end.a?`, `reduce . as $x (0; 1)[0]?`, `try 1 catch 2 | 3`, `-try 1`, `[-reduce -.[] as $i (0; . + $i)]`,
 	`.a as $x | .b as [$y] | $x + $y`, `"x" as $x | "y" as $y | [$x, $y] | join(",")`, `1 as $x | 2 as $x | $x`, `[.[] as $x | $x] as $y | $y`, `. as {a: $x, $y} | $x`, `. as {"a": $x} | 1`, `. as {("a", "b"): $x} | $x`, `. as {$a: [$b]} | $a`, `.. |= (. as $x | $x)`, `?//`, `1 ?// 2`,
+	`import "" as x; .`, `import "" as $d; $d`, `include ""; .`, `import "" as x {search: "./"}; x::f`, `import "a" as x; include ""; import "" as y; .`,
 	`# only a comment`, `1 # trailing`, "1 #c\\\n+ 2\n+ 3", "# a\r1", `"unterminated`, `"bad \q escape"`, `1 +`, `(1`, `[1, 2`, `{a: }`, `.a.`, `. a`, `1 2`, `$`, `@`, `.[`, `if 1 then 2`, `reduce . as $x (1)`, `def f: 1`, `1 as x | 2`, `import "a"; 1`, `{(1): 2, ("a"): 3}`, `.a as [$x, $x] | $x`, `0x10`, `1.2.3`, `..1`, `. .`, `.."a"`, `..[0]`, `. .[0]`, `. .a`, `. ."a"`, `. .[1:2].b`, `. .["a"]?`, `.. .a`, `1 .a`, `.a .b`,
 }
 
